@@ -1,6 +1,10 @@
 """Per-check manifest texts. bin/mkmanifest.py turns this into MANIFEST.json."""
 
 ENGINES = [
+    {'name': 'EQ', 'path': 'vf/eq.py, vf/sem.py', 'serves_properties': ['C08', 'C09', 'C10', 'C13', 'C14'],
+     'kind_free_text': 'real hpl.rewrite / hpl.ast code run on enumerated trees; input and output ASTs translated to quantifier-free z3 terms; equivalence decided for all valuations; models replayed through an independent Python evaluator'},
+    {'name': 'SX', 'path': 'vf/sx.py, vf/harness/', 'serves_properties': ['C08', 'C11', 'C14'],
+     'kind_free_text': 'CrossHair symbolic execution of harness functions that drive the real hpl code with symbolic literal values, valuations, widths, time bounds and metadata; one process per condition, reachability twin per harness'},
     {'name': 'SF', 'path': 'vf/sf.py', 'serves_properties': ['C20'],
      'kind_free_text': 'decision-list symbolic executor running the real hpl.types.DataType function objects on z3 bit-vector proxies'},
 ]
@@ -20,5 +24,48 @@ CHECKS = {
         'technique': 'symbolic execution of the real methods on z3 bit-vector proxies + validity queries (finite domain, complete)',
     },
 }
+
+CHECKS.update({
+    'C08': {
+        'engine': 'EQ+SX', 'category': 'other', 'design_ref': 'DESIGN.md 1 (EQ, SX), 3.1, 4 (C08)',
+        'text': ('Bounded symbolic: (EQ) every tree of the enumerated families goes through the real simplify and z3 decides input/output equivalence for ALL valuations '
+                 '(unbounded reals/strings, arrays up to K); (SX) CrossHair executes the real simplify with symbolic literal values and valuation and must confirm every '
+                 'template over all paths. Holds within the stated tree/literal bounds; says nothing beyond them.'),
+        'note': 'Trusted: z3, CrossHair, the reference semantics in vf/sem.py (partial where HPL is undocumented), Python float arithmetic for constant subtrees.',
+        'technique': 'z3 equivalence of real rewrite input/output over all valuations + CrossHair symbolic execution with symbolic literals',
+    },
+    'C09': {
+        'engine': 'EQ', 'category': 'other', 'design_ref': 'DESIGN.md 1 (EQ), 4 (C09)',
+        'text': 'Real split_and on every tree of the boolean/quantifier families; z3 decides conjunction(outputs) == input for all valuations incl. empty domains; indivisibility checked syntactically; ValueError licence decided by z3.',
+        'note': 'Trusted: z3, vf/sem.py semantics (strict definedness incl. hoisted invariant subterms, schema-consistent valuations).',
+        'technique': 'z3 equivalence of real rewrite input/output over all valuations (bounded trees, arrays up to K)',
+    },
+    'C10': {
+        'engine': 'EQ', 'category': 'other', 'design_ref': 'DESIGN.md 1 (EQ), 4 (C10)',
+        'text': 'Real refactor_reference on every (tree, alias, expression|predicate) case; z3 decides f1 and f2 == f for all valuations; alias-freedom and variable capture decided by an independent walker.',
+        'note': 'Trusted: z3, vf/sem.py semantics.',
+        'technique': 'z3 equivalence of real rewrite input/output over all valuations (bounded trees, arrays up to K)',
+    },
+    'C11': {
+        'engine': 'SX', 'category': 'other', 'design_ref': 'DESIGN.md 1 (SX), 4 (C11)',
+        'text': ('CrossHair must confirm, over all paths, 80 harnesses (scope kind x pattern kind x decoration mode) in which disjunction widths, the time bound (symbolic float), '
+                 'boundedness and metadata (symbolic string) are solver variables, against the decomposition computed from the statement; a concrete grid over wider widths runs the same oracle as a cross-check.'),
+        'note': 'Trusted: CrossHair/z3; events are built once outside tracing (opaque to the code under test).',
+        'technique': 'CrossHair symbolic execution of the real canonical_form with symbolic widths/time bound/metadata',
+    },
+    'C13': {
+        'engine': 'EQ', 'category': 'other', 'design_ref': 'DESIGN.md 1 (EQ), 4 (C13)',
+        'text': 'Real negate/join/replace_*/event alias normalisation on enumerated trees incl. one tree per (node kind x child slot); z3 decides each semantic identity for all valuations with the alias bound to the current message.',
+        'note': 'Trusted: z3, vf/sem.py semantics.',
+        'technique': 'z3 equivalence of real rewrite input/output over all valuations (bounded trees, arrays up to K)',
+    },
+    'C14': {
+        'engine': 'EQ+SX', 'category': 'other', 'design_ref': 'DESIGN.md 1, 4 (C14)',
+        'text': ('Every rewriting entry point on every tree of the union of the families (expression and predicate form) and canonical_form on the property grid: no exception outside the licences, '
+                 'result of the documented kind; licences decided by z3 / an independent type oracle; CrossHair confirms totality of simplify over symbolic literal values for the value-dependent sites.'),
+        'note': 'Trusted: z3, CrossHair. The enumeration of API calls is concrete; the solver decides the licences and the literal-value space.',
+        'technique': 'CrossHair symbolic execution over literal values + z3-decided licences on enumerated API calls',
+    },
+})
 
 NOT_APPLICABLE = {}
